@@ -125,3 +125,53 @@ pub fn now_s() -> f64 {
     use std::time::{SystemTime, UNIX_EPOCH};
     SystemTime::now().duration_since(UNIX_EPOCH).unwrap().as_secs_f64()
 }
+
+// ------------------------------------------------------------------------------------------
+// counting allocator (installed as the global allocator of the vcheck binary): live and peak heap bytes
+
+use std::alloc::{GlobalAlloc, Layout, System};
+use std::sync::atomic::{AtomicUsize, Ordering as AtomicOrdering};
+
+pub struct CountingAlloc;
+static LIVE_BYTES: AtomicUsize = AtomicUsize::new(0);
+static PEAK_BYTES: AtomicUsize = AtomicUsize::new(0);
+
+unsafe impl GlobalAlloc for CountingAlloc {
+    unsafe fn alloc(&self, layout: Layout) -> *mut u8 {
+        let p = System.alloc(layout);
+        if !p.is_null() {
+            let live = LIVE_BYTES.fetch_add(layout.size(), AtomicOrdering::Relaxed) + layout.size();
+            PEAK_BYTES.fetch_max(live, AtomicOrdering::Relaxed);
+        }
+        p
+    }
+    unsafe fn dealloc(&self, p: *mut u8, layout: Layout) {
+        System.dealloc(p, layout);
+        LIVE_BYTES.fetch_sub(layout.size(), AtomicOrdering::Relaxed);
+    }
+    unsafe fn realloc(&self, p: *mut u8, layout: Layout, new_size: usize) -> *mut u8 {
+        let q = System.realloc(p, layout, new_size);
+        if !q.is_null() {
+            if new_size >= layout.size() {
+                let live = LIVE_BYTES.fetch_add(new_size - layout.size(), AtomicOrdering::Relaxed) + (new_size - layout.size());
+                PEAK_BYTES.fetch_max(live, AtomicOrdering::Relaxed);
+            } else {
+                LIVE_BYTES.fetch_sub(layout.size() - new_size, AtomicOrdering::Relaxed);
+            }
+        }
+        q
+    }
+}
+
+pub fn heap_live() -> usize {
+    LIVE_BYTES.load(AtomicOrdering::Relaxed)
+}
+/// start a measurement: peak := live; returns live
+pub fn heap_mark() -> usize {
+    let live = LIVE_BYTES.load(AtomicOrdering::Relaxed);
+    PEAK_BYTES.store(live, AtomicOrdering::Relaxed);
+    live
+}
+pub fn heap_peak() -> usize {
+    PEAK_BYTES.load(AtomicOrdering::Relaxed)
+}
